@@ -127,8 +127,16 @@ def aidcToAidu (cs : List Nat) : M Nat := aidcToAiduAux cs 0
 
 /-! ### bbs.ArticleID -/
 
+/-- `Filename_t.IsDeleted`: the name starts with the safe-delete mark ".d". -/
+def isDeleted (f : List Nat) : Bool := f.take 2 == [46, 100]
+
+/-- the name `bbs.ToArticleID` encodes: a delete-marked entry is read under its original
+name `"M." ++ f[2:]` (`Filename_t.Basename`), copied into a fresh [FNLEN]byte. -/
+def idName (f : List Nat) : List Nat :=
+  if isDeleted f then copyInto FNLEN ([77, 46] ++ f.drop 2) else f
+
 /-- `bbs.ToArticleID`: the C-string reading of the 8 AIDC bytes. -/
-def toArticleID (f : List Nat) : List Nat := cstr (aiduToAidc (fnToAidu f))
+def toArticleID (f : List Nat) : List Nat := cstr (aiduToAidc (fnToAidu (idName f)))
 
 /-- `ArticleID.ToRaw`: copy (at most 8 bytes) into an Aidc, decode, render. -/
 def articleIDToRaw (a : List Nat) : M (List Nat) := do
